@@ -81,29 +81,28 @@ def ob_identity(name, lhs, rhs, tol=TOL_FLOAT, kind="post", pre=(), norm=None, r
     """
     t0 = time.time()
     try:
-        n = norm or Normaliser()
+        n = norm or Normaliser(assume=pre)
         lhs, rhs = R.lift(lhs), R.lift(rhs)
         st, info = n.identity(lhs, rhs, tol)
         if st == "proved":
             d = "zero polynomial" if info.get("residual") == 0 else f"residual rel {info.get('rel_residual'):.3g} <= tol {tol}"
+            if n.log_expansions:
+                d += f" ({n.log_expansions} log expansions with z3-proved factor signs)"
             return Ob(name, kind, PROVED, "ratfun", time.time() - t0, d)
         detail = f"normal form of lhs-rhs is non-zero: rel={info.get('rel_residual'):.3g} sample: {info.get('residual_sample')}"
-        has_transc = any(k in ("f",) for k, _ in n.atoms.info)
+        # a refutation needs a concrete input at which the two sides differ when evaluated with the
+        # TRUE functions (log, Li2, sqrt ...): atoms may satisfy relations the normaliser ignores
         inputs = {}
         if numeric_refute is not None:
             try:
                 inputs = numeric_refute() or {}
             except Exception as e:  # pragma: no cover
                 detail += f" | numeric search crashed: {e!r}"
+        if not inputs:
+            inputs = find_witness(lhs, rhs, pre, reltol=max(wit_tol, 100 * tol))
         if inputs:
-            return Ob(name, kind, REFUTED, "ratfun+replay", time.time() - t0, detail, inputs, replay or {})
-        if not has_transc or tol:
-            # atoms are independent variables / uninterpreted values: a non-zero polynomial
-            # is a genuine difference for generic values.  Find a witness point exactly.
-            wit = _poly_witness(n, lhs, rhs, pre)
-            return Ob(name, kind, REFUTED, "ratfun", time.time() - t0, detail, wit, replay or {})
-        # transcendental atoms may satisfy relations the normaliser does not know
-        return Ob(name, kind, UNDECIDED, "ratfun", time.time() - t0, detail)
+            return Ob(name, kind, REFUTED, "ratfun+witness", time.time() - t0, detail, inputs, replay or {})
+        return Ob(name, kind, UNDECIDED, "ratfun", time.time() - t0, detail + " | no input found at which the sides differ numerically (atoms may be related)")
     except OutOfReach as e:
         return Ob(name, kind, UNDECIDED, "engine", time.time() - t0, f"OutOfReach: {e}")
 
@@ -312,10 +311,10 @@ class Report:
                     o.detail = "exception under symbolic execution not reproduced natively: " + o.detail
                 self.add(o)
                 continue
-            for sub, got, exp in _triples(p.result):
+            for sub, got, exp, opts in _triples4(p.result):
                 nm = name + (f"/{sub}" if sub else "") + suffix
                 if isinstance(got, R) or isinstance(exp, R) or (_isnum(got) and _isnum(exp)):
-                    o = ob_identity(nm, got, exp, tol, kind, pre=list(pre) + list(p.pc))
+                    o = ob_identity(nm, got, exp, opts.get("tol", tol), opts.get("kind", kind), pre=list(pre) + list(p.pc))
                 elif isinstance(got, B) or isinstance(exp, B):
                     from .sym import Or as _Or, And as _And
 
@@ -330,13 +329,13 @@ class Report:
                     if not ok:
                         o.replay = {"confirmed": True, "note": "decided by executing the real code on this concrete case"}
                 if o.status == REFUTED and o.inputs and "_lhs" in o.inputs:
-                    self._native(o, name, case, sy, sub)
+                    self._native(o, name, case, sy, sub, opts.get("replay_tol", 1e-9))
                 self.add(o)
             if sides:
                 self.add(ob_sides(name + suffix, p, pre, dedupe=seen_sides))
         return paths
 
-    def _native(self, o, name, case, sy, sub):
+    def _native(self, o, name, case, sy, sub, rtol=1e-9):
         """Replay a refuted obligation on the real code with floats at the witness point."""
         try:
             sy_num = sy.numeric(o.inputs)
@@ -344,10 +343,10 @@ class Report:
             if sub is None:
                 o.replay = {"confirmed": False, "note": "native run at the witness did not raise"}
                 return
-            for s2, got, exp in _triples(res):
+            for s2, got, exp, _o in _triples4(res):
                 if s2 == sub:
                     g, e = float(got), float(exp)
-                    o.replay = {"observed_native": g, "expected_spec": e, "confirmed": bool(abs(g - e) > 1e-9 * max(1.0, abs(g), abs(e))), "cmd": f"./check {self.pid} --replay <this file>"}
+                    o.replay = {"observed_native": g, "expected_spec": e, "confirmed": bool(abs(g - e) > rtol * max(1.0, abs(g), abs(e))), "cmd": f"./check {self.pid} --replay <this file>"}
                     return
             o.replay = {"confirmed": False, "note": "sub-case not reproduced natively"}
         except Exception as ex:  # noqa
@@ -366,7 +365,7 @@ class Report:
         except Exception as ex:  # noqa
             print(f"OBSERVED: raises {type(ex).__name__}: {ex}")
             return
-        for sub, got, exp in _triples(res):
+        for sub, got, exp, _o in _triples4(res):
             nm = name + (f"/{sub}" if sub else "")
             if self.replay_target.startswith(nm):
                 try:
@@ -382,10 +381,20 @@ def _isnum(v):
     return is_number(v) and not isinstance(v, bool) and type(v).__name__ != "bool_"
 
 
+def _triples4(res):
+    out = []
+    for t in _triples(res):
+        if len(t) == 4:
+            out.append(t)
+        else:
+            out.append((t[0], t[1], t[2], {}))
+    return out
+
+
 def _triples(res):
     if isinstance(res, tuple) and len(res) == 2 and not isinstance(res[0], tuple):
         return [("", res[0], res[1])]
-    if isinstance(res, tuple) and len(res) == 3 and isinstance(res[0], str):
+    if isinstance(res, tuple) and len(res) in (3, 4) and isinstance(res[0], str):
         return [res]
     return list(res)
 
